@@ -2,6 +2,7 @@ import OmplModel.Proofs.SpaceDistLaws
 import OmplModel.Proofs.SpaceDistDom
 import OmplModel.Proofs.SpaceDistSO3Code
 import OmplModel.Proofs.SpaceDistSphereLaws
+import OmplModel.Proofs.SpaceDistXLaws
 import OmplModel.Generated.Claims
 /-!
 # C06 — state-space distances obey the metric laws each space claims
@@ -324,19 +325,83 @@ example : AllLeaves (fun _ => True) CodeLeaf
     (.ccons 2 (.mobius 1 1) (.ccons 1 .klein (.ccons 1 (.wrap (.sphere 3)) .cnil)) : Space ℝ) := by
   simp [AllLeaves, CodeLeaf, isCList]
 
+/-- F135: a compound with a ZERO weight still claims `isMetricSpace()` (all its components do), but states that differ
+only in the zero-weight component are at distance 0 without being `equalStates`: a pseudo-metric.  (Triangle, symmetry
+and non-negativity survive, which is all the nearest-neighbour structures need.) -/
+theorem zero_weight_positivity_fails :
+    claimsMetric (.ccons 0 .so2 (.ccons 1 (.rv [0] [1]) .cnil) : Space ℝ) = true ∧
+    ¬ (∀ a b, inDom (.ccons 0 .so2 (.ccons 1 (.rv [0] [1]) .cnil) : Space ℝ) a →
+        inDom (.ccons 0 .so2 (.ccons 1 (.rv [0] [1]) .cnil) : Space ℝ) b →
+        equalStates (.ccons 0 .so2 (.ccons 1 (.rv [0] [1]) .cnil) : Space ℝ) a b = false →
+        0 < SpaceDist.dist (.ccons 0 .so2 (.ccons 1 (.rv [0] [1]) .cnil) : Space ℝ) a b) := by
+  refine ⟨rfl, fun h => ?_⟩
+  have hpi := Real.pi_gt_three
+  have in0 : so2InBounds (0:ℝ) = true := by rw [so2InBounds_real]; constructor <;> linarith
+  have in1 : so2InBounds (1:ℝ) = true := by rw [so2InBounds_real]; constructor <;> linarith
+  have hrv : rvIn [(0:ℝ)] [0] [1] := by simp [rvIn]
+  have hne : so2Equal (0:ℝ) 1 = false := by
+    rw [so2Equal_false_real, eps_real]; norm_num
+  have := h (.ccons (.so2 0) (.ccons (.rv [0]) .cnil)) (.ccons (.so2 1) (.ccons (.rv [0]) .cnil))
+    ⟨in0, hrv, trivial⟩ ⟨in1, hrv, trivial⟩ (by simp [equalStates, hne])
+  rw [zero_weight_ignored _ _ rfl, dist_ccons _ _ _ rfl] at this
+  simp [SpaceDist.dist, rvDist_self] at this
+
+/-! ## the shipped spaces outside the shared `Space` type (Model/SpaceDistX.lean; `none` = +∞) -/
+
+/-- EmptyStateSpace: every distance is 0, all (well-typed) states are `equalStates`, extent 0 — all six laws trivially. -/
+theorem empty_metric (a b : St ℝ) (ha : inDom (SpaceX.empty : SpaceX ℝ).layout a)
+    (hb : inDom (SpaceX.empty : SpaceX ℝ).layout b) :
+    distX (.empty : SpaceX ℝ) a b = some 0 ∧ equalX (.empty : SpaceX ℝ) a b = true ∧
+    extentX (.empty : SpaceX ℝ) = some 0 ∧ claimsMetricX (.empty : SpaceX ℝ) = true :=
+  ⟨empty_dist a b, empty_equal a b ha hb, by simp [extentX], rfl⟩
+example : inDom (SpaceX.empty : SpaceX ℝ).layout (.rv []) := by simp [SpaceX.layout, inDom, rvIn]
+
+/-- SpaceTimeStateSpace (claims a symmetric distance, NOT a metric): zero to itself, symmetric (the reachability test
+is symmetric too), and whenever finite: non-negative, positive between states that are not `equalStates`
+(`0 < timeWeight < 1`); its extent is `+∞`, so the extent law is vacuous. -/
+theorem spacetime_claimed_laws (vmax tw : ℝ) (bd : Bool) (lo hi : ℝ) (inner : Space ℝ) (hv : 0 < vmax) (h0 : 0 < tw)
+    (h1 : tw < 1) (L : Laws inner) :
+    (∀ a, inDom (SpaceX.spacetime vmax tw bd lo hi inner).layout a →
+      distX (.spacetime vmax tw bd lo hi inner) a a = some 0) ∧
+    (∀ a b, inDom (SpaceX.spacetime vmax tw bd lo hi inner).layout a →
+      inDom (SpaceX.spacetime vmax tw bd lo hi inner).layout b →
+      distX (.spacetime vmax tw bd lo hi inner) a b = distX (.spacetime vmax tw bd lo hi inner) b a) ∧
+    (∀ a b d, inDom (SpaceX.spacetime vmax tw bd lo hi inner).layout a →
+      inDom (SpaceX.spacetime vmax tw bd lo hi inner).layout b →
+      distX (.spacetime vmax tw bd lo hi inner) a b = some d →
+      0 ≤ d ∧ (equalX (.spacetime vmax tw bd lo hi inner) a b = false → 0 < d)) ∧
+    extentX (.spacetime vmax tw bd lo hi inner) = none ∧ claimsMetricX (.spacetime vmax tw bd lo hi inner) = false :=
+  let ⟨a, b, c⟩ := spacetime_laws vmax tw bd lo hi inner hv h0 h1 L
+  ⟨a, b, c, rfl, rfl⟩
+example : Laws (.rv [0, 0] [1, 1] : Space ℝ) := rv_laws _ _
+
+/-- Projected / Atlas / TangentBundle state spaces: distance, equalStates, satisfiesBounds and extent ARE the ambient
+space's (so they have exactly the ambient space's laws), and `isMetricSpace()` is withdrawn. -/
+theorem constrained_is_ambient (amb : Space ℝ) (a b : St ℝ) :
+    distX (.constrained amb) a b = some (SpaceDist.dist amb a b) ∧ equalX (.constrained amb) a b = equalStates amb a b ∧
+    inBoundsX (.constrained amb) a = satisfiesBounds amb a ∧ extentX (.constrained amb) = some (maxExtent amb) ∧
+    claimsMetricX (.constrained amb) = false := constrained_forwards amb a b
+
+/-- CForestStateSpaceWrapper forwards everything, the claims included. -/
+theorem cforest_is_inner (s : SpaceX ℝ) (a b : St ℝ) :
+    distX (.cforest s) a b = distX s a b ∧ equalX (.cforest s) a b = equalX s a b ∧
+    inBoundsX (.cforest s) a = inBoundsX s a ∧ extentX (.cforest s) = extentX s ∧
+    claimsMetricX (.cforest s) = claimsMetricX s := cforest_forwards s a b
+
 /-! ## what the code claims (generated by running it) is covered -/
 
 /-- spaces whose claimed metric laws (incl. symmetry) are proved above (`shipped_metric` and the leaf theorems) -/
 def provedMetric : List String :=
   ["rv", "so2", "se2", "timeUnbounded", "timeBounded", "disc", "torus", "wrapRv", "wrapDisc", "compoundRvSo2",
-   "compoundRvDisc"]
-/-- spaces that claim to be metric spaces but are not: kernel-checked witnesses above; KNOWN_FINDINGS F5, F12 -/
-def knownNonMetric : List String := ["so3", "se3", "wrapSo3", "sphere"]
+   "compoundRvDisc", "empty", "cforestSe2"]
+/-- spaces that claim to be metric spaces but are not: kernel-checked witnesses above; KNOWN_FINDINGS F5, F12, F135 (zero weight: pseudo-metric) -/
+def knownNonMetric : List String := ["so3", "se3", "wrapSo3", "sphere", "cforestSo3", "compoundZeroWeight"]
 /-- spaces that claim a symmetric distance only, with the symmetry proved above (`mobius_other_laws`,
-`klein_other_laws`).  Since the fix 02d37426b Möbius and Klein bottle no longer claim `isMetricSpace()`;
+`klein_other_laws`, `spacetime_claimed_laws`, `constrained_is_ambient` + `rn_metric`).  Since the fix 02d37426b Möbius and Klein bottle no longer claim `isMetricSpace()`;
 `mobius_triangle_fails` / `klein_triangle_fails` say why.  They are deliberately NOT in the two lists above:
 if one of them claims to be a metric space again, `claims_covered` fails. -/
-def provedSymmetricOnly : List String := ["mobius", "klein"]
+def provedSymmetricOnly : List String :=
+  ["mobius", "klein", "spaceTime", "projected", "atlas", "tangentBundle"]
 /-- claims whose proof belongs to C14 (Reeds-Shepp, symmetrised Dubins): checked here by the oracle on the implementation -/
 def delegated : List String := ["reedsShepp", "dubinsSym"]
 
